@@ -25,8 +25,8 @@ F_HashPairs(Ts, Vs, res) ==
            \cup Fail("SameBipartitionIffSameSplit", \A e \in E1, f \in E2 : res.same[e][f] = (s1[e] = s2[f]))
            \cup Fail("HashEqualsIffSameSplit", \A e \in E1, f \in E2 : res.heq[e][f] = (s1[e] = s2[f]))
            \cup Fail("EqualSplitsHashEquallyWithinTree",
-                     \A i \in {1, 2} : \A e, f \in EdgeIds(Ts[i]) :
-                        EdgeSplit(Vs[i], e) = EdgeSplit(Vs[i], f) => Ts[i].idx[e].h = Ts[i].idx[f].h)
+                     /\ \A e, f \in E1 : s1[e] = s1[f] => Ts[1].idx[e].h = Ts[1].idx[f].h
+                     /\ \A e, f \in E2 : s2[e] = s2[f] => Ts[2].idx[e].h = Ts[2].idx[f].h)
 
 -----------------------------------------------------------------------------
 (* the index against a plain map.  args.ops[i] = [op, t, e, cnt] : branch e of tree t is the key;      *)
